@@ -25,6 +25,7 @@ OBLIGATIONS = ["NiftyVerif.C31." + t for t in (
     "parent_child_vec", "children_cover_vec", "mgrid_componentwise", "open_shape_shift_step",
     "ravelSerial_lt", "flat_roundtrip_serial", "flat_roundtrip_serial_inv",
     "flat_parent_commutes", "flat_children_commute", "flat_parent_commutes_serial",
+    "flat_roundtrip_nest", "nest_bound_is_shape", "flat_parent_commutes_nest",
     "coord_roundtrip", "coord_roundtrip_rint", "volume_conserved_axis", "volume_conserved",
     "neighbourhood_in_range", "neighbourhood_centre", "neighbourhood_wraps", "open_neighbourhood_eq")]
 RULE = ("grid specifications (regular 1-3 D, open with per-level padding, HEALPix nside<=4, MGrid products, FlatGrid "
